@@ -154,6 +154,9 @@ META["rule"] += (
 META["rule"] += (
     " " + "Added after the fifth round: family 'undefined entries' (explicit matrices with NaN rows / pairs, Tsonis / Spearman networks of data with constant series; threshold mode): defined pairs follow the rule on the absolute value, undefined ones are never linked; before half of the re-derivations a known threshold is set, every other time exactly 0 (int, float, float32), and the state afterwards is judged against it; switches as bool / np.bool_ / 0-1.")
 
+META["rule"] += (
+    " " + 'Added after the seventh round: the event thresholds of RainfallClimateNetwork are drawn ((0,1), (0.5,1), (0.8,1.0), (0.25,0.9)); answers handed out before a setter stay what they were.')
+
 G = 64.0
 GUARD = 1e-4
 
